@@ -522,3 +522,20 @@ def run_twin_case(case, prog_a, opts_a, prog_b, opts_b, vals=None, chests=None, 
         res["finding"] = K1
     res["_ctx"] = None
     return res
+
+
+def run_twin_case_relative(case, prog_a, opts_a, prog_b, opts_b, **kw):
+    """run_twin_case for properties that compare two builds with each other (optimised / unoptimised, loop /
+    unrolled, call / inlined): build a is also run against the reference semantics, but a deviation that build b
+    shares is not a difference between the two - it is recorded as `common_deviation` and left to the properties
+    that fix the meaning of the program itself (C01 / C02 / C03 ...)."""
+    res = run_twin_case(case, prog_a, opts_a, prog_b, opts_b, **kw)
+    if kw.get("reference", True) and res.get("verdict") == "violated" and (res.get("witness") or {}).get("oracle") == "reference":
+        note = "both builds deviate identically from the reference semantics: %s" % res.get("why", "")[:200]
+        kw2 = dict(kw, reference=False)
+        res2 = run_twin_case(case, prog_a, opts_a, prog_b, opts_b, **kw2)
+        if res2.get("verdict") == "held":
+            res2["common_deviation"] = note
+            return res2
+        return res2 if res2.get("verdict") == "violated" else res
+    return res
